@@ -171,10 +171,14 @@ def prune(keep):
         ds = [os.path.join(BUILD, d) for d in os.listdir(BUILD) if d != keep and not d.startswith(".")]
     except FileNotFoundError:
         return
+    # other trees and flavours may be in use by checks running right now (seeded changes, -funsigned-char builds):
+    # keep the dozen most recently used directories and never remove one that was used within the last eight hours
+    import time
     ds = [d for d in ds if os.path.isdir(d)]
     ds.sort(key=lambda d: os.path.getmtime(d))
-    for d in ds[:-2]:
-        shutil.rmtree(d, ignore_errors=True)
+    for d in ds[:-12]:
+        if time.time() - os.path.getmtime(d) > 8 * 3600:
+            shutil.rmtree(d, ignore_errors=True)
 
 
 def main():
@@ -182,6 +186,10 @@ def main():
     h = tree_hash()
     dest = os.path.join(BUILD, h)
     if os.path.exists(os.path.join(dest, "OK")):
+        try:
+            os.utime(dest, None)        # "recently used" for prune()
+        except OSError:
+            pass
         print(dest)
         return
     with open(os.path.join(BUILD, ".lock"), "w") as lk:
